@@ -13,7 +13,7 @@ BUDGET = {'quick': 150, 'thorough': 1500}
 NCASES = {'quick': 700, 'thorough': 12000}
 RULE = ('cases: seeded peers (server role, client role via listen/accept, SSH-1 server reached through the 2-connection fallback) whose ten '
         'KEXINIT name-lists / SSH-1 masks are drawn from database names, unknown names, gss-* with base64 suffixes, duplicates, empty and '
-        'single-element lists, long names, non-UTF-8 bytes; each peer is audited under two seeded delivery schedules (latency regime x '
+        'single-element lists, long names, non-UTF-8 bytes (every tenth server presents real keys of every advertised host-key type during the probes); each peer is audited under two seeded delivery schedules (latency regime x '
         'segmentation x EAGAIN bursts) in a text and a JSON rendering. non-trivial: the algorithm report was reached and some list has >= 2 '
         'names; distinct by hash of (role, renderings, segmentation modes, the lists).')
 ASSUMPTIONS = ['c2s and s2c lists are equal in 85% of the cases; where they differ either direction is accepted but the text and JSON forms must show the same one',
@@ -61,6 +61,15 @@ def cases(seed, tier):
                 # one very long list (about 60 KiB of names): the KEXINIT spans dozens of segments and recv() calls
                 cat = rng.choice(CATS)
                 p[cat] = p[cat] + ['n%04d-' % j + 'x' * rng.choice([40, 180]) + '@example.com' for j in range(rng.choice([60, 300]))]
+            if role == 'server' and i % 10 == 7:
+                # every advertised host-key type is really presented during the probes (measured sizes, notes or no notes at all,
+                # are written back into the rating tables before the report is rendered): the lists shown must not depend on it
+                r2 = gen.case_rng(seed, ID, i, 'probed')
+                fetchable = list(gen.KEY_SPECS) + ['rsa-sha2-256', 'rsa-sha2-512', 'ssh-rsa-cert-v01@openssh.com', 'ssh-ed25519-cert-v01@openssh.com']
+                p['key'] = r2.sample(fetchable, r2.randrange(1, 6))
+                p['keys'] = gen.rand_keys(r2, p['key'])
+                p['kex'] = [r2.choice(['curve25519-sha256', 'diffie-hellman-group14-sha256', 'ecdh-sha2-nistp256', 'diffie-hellman-group-exchange-sha256'])] + [k for k in p['kex'] if k not in gen.PROBE_KEX]
+                p['gex'] = {'sizes': [r2.choice([1024, 2048, 3072, 4096])], 'style': r2.choice(['strict', 'roundup'])}
             c['profile'] = p
         yield c
 
